@@ -91,6 +91,11 @@ def mutations(src):
     yield ('(m, control) compile_negative_lookaround: an unused `let unused = self.b.pc();` added (same meaning)',
            once(src, k, k.replace('        self.b.add(Insn::Split(pc + 1, usize::MAX));\n',
                                   '        let unused = self.b.pc();\n        self.b.add(Insn::Split(pc + 1, usize::MAX));\n'), 'm'))
+    yield ('(p) DelegateBuilder::push: `info.expr.to_str(&mut self.re, 1)` -> precedence 0',
+           once(src, 'info.expr.to_str(&mut self.re, 1);', 'info.expr.to_str(&mut self.re, 0);', 'p'))
+    q = once(src, 'info.expr.to_str(&mut self.re, 1);', '', 'q1')
+    q = once(q, '            self.start_group = Some(info.start_group);\n', '            self.start_group = Some(info.start_group);\n            info.expr.to_str(&mut self.re, 1);\n', 'q2')
+    yield ('(q) DelegateBuilder::push: `to_str` moved into `if self.start_group.is_none() { .. }` (only the first expression is printed; there is no `^` in this source to drop)', q)
     yield ('(n, control) compile_lookaround_inner: `la == LookBehind || la == LookBehindNeg` written as `matches!(la, LookBehind | LookBehindNeg)` (same meaning)',
            once(src, 'if la == LookBehind || la == LookBehindNeg {', 'if matches!(la, LookBehind | LookBehindNeg) {', 'n'))
     yield ('(o, control) VMBuilder::new written with struct update syntax (`VMBuilder { n_saves: max_group * 2, ..VMBuilder { prog: Vec::new(), n_saves: 0 } }`, same meaning)',
@@ -195,10 +200,36 @@ def main():
             continue
         proof = os.path.join(root, SCRATCH_MODULE, 'C03d.lean')
         open(proof, 'w').write(ptext.replace(IMPORT, 'import %s.GeneratedCompile\n' % SCRATCH_MODULE))
-        r = sh([lean_bin, '--root=' + root, proof], env=env, cwd=root)
+        r = sh([lean_bin, '--root=' + root, '-o', os.path.join(d, 'lib', SCRATCH_MODULE, 'C03d.olean'), proof], env=env, cwd=root)
         errs = [l for l in r.stdout.split('\n') if ': error' in l]
         if r.returncode == 0 and not errs:
-            rows.append((name, acc, 'proof HOLDS', ''))
+            # the second proof file (the text handed to regex-automata) against the same scratch translation
+            p2 = os.path.join(LEAN, 'FancyModel', 'Proofs', 'C03e.lean')
+            if not os.path.exists(p2):
+                rows.append((name, acc, 'proof HOLDS', ''))
+                continue
+            t2 = open(p2).read()
+            if t2.count('import FancyModel.Proofs.C03d\n') != 1:
+                sys.exit('C03e.lean does not import FancyModel.Proofs.C03d exactly once')
+            proof2 = os.path.join(root, SCRATCH_MODULE, 'C03e.lean')
+            open(proof2, 'w').write(t2.replace('import FancyModel.Proofs.C03d\n', 'import %s.C03d\n' % SCRATCH_MODULE))
+            r2 = sh([lean_bin, '--root=' + root, proof2], env=env, cwd=root)
+            errs2 = [l for l in r2.stdout.split('\n') if ': error' in l]
+            if r2.returncode == 0 and not errs2:
+                rows.append((name, acc, 'proof HOLDS', ''))
+            else:
+                lines2 = t2.split('\n')
+                thms = []
+                for l in errs2:
+                    if l.count(':') > 2 and l.split(':')[1].isdigit():
+                        k = int(l.split(':')[1])
+                        while k > 0 and not re.match(r'(theorem|def)\s+(\S+)', lines2[k - 1]):
+                            k -= 1
+                        m = re.match(r'(theorem|def)\s+(\S+)', lines2[k - 1]) if k > 0 else None
+                        t = '`%s`' % m.group(2) if m else '?'
+                        if t not in thms:
+                            thms.append(t)
+                rows.append((name, acc, 'proof FAILS', 'C03d holds; C03e: %d error(s): %s' % (len(errs2), ', '.join(thms[:3]))))
         else:
             where = sorted({l.split(':')[1] for l in errs if l.count(':') > 2 and l.split(':')[1].isdigit()}, key=int)
             thms = []
